@@ -1196,7 +1196,7 @@ def store(
         lock = get_scheduler_lock(collection=Array, scheduler=kwargs.get("scheduler"))
 
     arrays = []
-    for s, t, r in zip(sources, targets, regions_list):
+    for i, (s, t, r) in enumerate(zip(sources, targets, regions_list)):
         slices = ArraySliceDep(s.chunks)
         arrays.append(
             s.map_blocks(
@@ -1208,7 +1208,9 @@ def store(
                 lock=lock,
                 return_stored=return_stored,
                 load_stored=load_stored,
-                token="store-map",
+                # The position is part of the name: the same source stored into two
+                # targets that tokenize alike (e.g. equal contents) must not share keys
+                token=f"store-map-{i}",
                 meta=s._meta,
             )
         )
